@@ -326,6 +326,7 @@ private:
     }
 
     JsonValue parse_object() {
+        const DepthGuard depth_guard(depth_);
         JsonValue value;
         value.type = JsonType::Object;
         expect('{');
@@ -355,6 +356,7 @@ private:
     }
 
     JsonValue parse_array() {
+        const DepthGuard depth_guard(depth_);
         JsonValue value;
         value.type = JsonType::Array;
         expect('[');
@@ -598,8 +600,24 @@ private:
         return input_[pos_++];
     }
 
+    // Containers nest recursively; bound the nesting so hostile metadata cannot exhaust the stack.
+    static constexpr std::size_t kMaxNestingDepth = 64;
+    struct DepthGuard {
+        explicit DepthGuard(std::size_t& depth) : depth_(depth) {
+            if (++depth_ > kMaxNestingDepth) {
+                --depth_;
+                throw std::runtime_error("JSON document is nested too deeply");
+            }
+        }
+        ~DepthGuard() { --depth_; }
+        DepthGuard(const DepthGuard&) = delete;
+        DepthGuard& operator=(const DepthGuard&) = delete;
+        std::size_t& depth_;
+    };
+
     std::string_view input_;
     std::size_t pos_{0};
+    std::size_t depth_{0};
 };
 
 const JsonValue* expect_string_field(const JsonValue& object, std::string_view key, std::string& error) {
